@@ -112,15 +112,11 @@ def width(t, memo=None):
     return len(deps(t, memo))
 
 
-def node_graph(stmts, nbits_of_sig, node_of):
-    """stmts: list of dicts {dom, conds:[terms], lhs: ("bits",[nodes]) | ("bsel", sig, offset_term) | ("arr",[nodes],index_term),
-    rhs: term}.  -> {node: frozenset(nodes it combinationally depends on)}"""
-    g = {}
+def _contributions(stmts, nbits_of_sig, node_of):
+    """-> list of (stmt index, node, frozenset deps): what every statement contributes to every bit it can assign"""
     memo = {}
-
-    def add(v, d):
-        g[v] = g.get(v, EMPTY) | d
-    for s in stmts:
+    out = []
+    for k, s in enumerate(stmts):
         cd = EMPTY
         for c in s["conds"]:
             cd |= _union(deps(c, memo))
@@ -132,22 +128,97 @@ def node_graph(stmts, nbits_of_sig, node_of):
             ext = r[-1] if (r and is_signed(s["rhs"])) else EMPTY
             for i, v in enumerate(lhs[1]):
                 d = cd | (r[i] if i < len(r) else ext)
-                add(v, d if comb else EMPTY)
+                out.append((k, v, d if comb else EMPTY))
         elif lhs[0] == "bsel":
             # sig.bit_select(offset, 1).eq(rhs): every bit whose index the offset can take is a possible target
             sig, off = lhs[1], lhs[2]
             od = _union(deps(off, memo))
             reach = min(nbits_of_sig[sig], 1 << width(off, memo))
             for b in range(reach):
-                add(node_of[(sig, b)], (cd | od | (r[0] if r else EMPTY)) if comb else EMPTY)
+                out.append((k, node_of[(sig, b)], (cd | od | (r[0] if r else EMPTY)) if comb else EMPTY))
         elif lhs[0] == "arr":
             # Array([bit, bit, ...])[index].eq(rhs): every element the index can select is a possible target
             od = _union(deps(lhs[2], memo))
             for v in lhs[1][:1 << width(lhs[2], memo)]:
-                add(v, (cd | od | (r[0] if r else EMPTY)) if comb else EMPTY)
+                out.append((k, v, (cd | od | (r[0] if r else EMPTY)) if comb else EMPTY))
         else:
             raise ValueError(lhs)
+    return out
+
+
+def _graph(contribs, skip=()):
+    g = {}
+    for k, v, d in contribs:
+        g[v] = g.get(v, EMPTY) | (EMPTY if (k, v) in skip else d)
     return g
+
+
+def node_graph(stmts, nbits_of_sig, node_of):
+    """stmts (in assignment order): list of dicts {dom, conds:[terms], lhs: ("bits",[nodes]) | ("bsel", sig, offset_term) |
+    ("arr",[nodes],index_term), rhs: term}.  -> {node: frozenset(nodes it combinationally depends on)}; every statement
+    that can assign a bit contributes (no liveness analysis)."""
+    return _graph(_contributions(stmts, nbits_of_sig, node_of))
+
+
+def _unconditional_cover(s):
+    return s["dom"] == "comb" and not s["conds"] and s["lhs"][0] == "bits"
+
+
+def node_graphs(stmts, nbits_of_sig, node_of):
+    """Dependency graphs under docs/guide.rst "Assignment order" (if several assignments change the same bits, the one
+    added last determines the final value) and "Active and inactive assignments" (the final value is as if the inactive
+    assignments were removed): the value a statement assigns to a bit is irrelevant (dead) iff a
+    LATER UNCONDITIONAL assignment covers that bit.  A conditional or partial later assignment does not remove the
+    dependency of a bit on earlier assignments (the earlier one is visible whenever the later one is inactive / for the
+    bits it does not cover).
+
+    -> dict with
+       all:    every contribution counts (purely structural reading)
+       sem:    dead contributions removed (a bit of `sem` reaching itself is a real loop under every reading)
+       claim:  only the indisputably dead contributions removed: an unconditional whole-signal assignment that belongs to
+               the leading run of unconditional whole-signal assignments of its signal and is not the last of that run
+               (nothing of it can ever be observed, and no conditional statement lies between it and its replacement)
+       nodefault_on_covered: `sem` minus what the FIRST unconditional whole-signal assignment of a signal gives to bits that
+               a later statement also assigns (used only to classify which cycles run through the default of an
+               overridden bit)"""
+    contribs = _contributions(stmts, nbits_of_sig, node_of)
+    node_sig = {v: sb[0] for sb, v in node_of.items()}
+    sig_nodes = {}
+    for (sg, b), v in sorted(node_of.items()):
+        sig_nodes.setdefault(sg, []).append(v)
+    targets = {}                     # stmt -> set of nodes it can assign
+    for k, v, d in contribs:
+        targets.setdefault(k, set()).add(v)
+    dead = set()
+    for k, v, d in contribs:
+        for j in range(k + 1, len(stmts)):
+            if _unconditional_cover(stmts[j]) and v in stmts[j]["lhs"][1]:
+                dead.add((k, v))
+                break
+    # leading runs of unconditional whole-signal assignments
+    claim = set()
+    first_default = {}               # sig -> stmt index of its first statement if that is an unconditional whole-signal one
+    for sg, nodes in sig_nodes.items():
+        touching = [k for k in range(len(stmts)) if targets.get(k, set()) & set(nodes)]
+        run = []
+        for k in touching:
+            s = stmts[k]
+            if _unconditional_cover(s) and list(s["lhs"][1]) == list(nodes):
+                run.append(k)
+            else:
+                break
+        if run:
+            first_default[sg] = run[0]
+        for k in run[:-1]:
+            for v in nodes:
+                claim.add((k, v))
+    covered_later = set()
+    for sg, k0 in first_default.items():
+        for v in sig_nodes[sg]:
+            if any(j > k0 and v in targets.get(j, set()) for j in range(len(stmts))):
+                covered_later.add((k0, v))
+    return {"all": _graph(contribs), "sem": _graph(contribs, dead), "claim": _graph(contribs, claim & dead),
+            "nodefault_on_covered": _graph(contribs, dead | covered_later), "has_dead": bool(dead)}
 
 
 def find_cycle(g):
